@@ -1,5 +1,6 @@
 SPECIFICATION Spec
 CONSTANTS
   Menus <- MenusT
-INVARIANTS VerifyIffValid FormatTable PresenceRule RefusesOutsideList NeverWidens OptOutRule
+  FixSign = TRUE
+INVARIANTS VerifyIffValid FormatTable PresenceRule RefusesOutsideList SignAlsoRefuses NeverWidens OptOutRule
 CHECK_DEADLOCK FALSE
